@@ -61,6 +61,10 @@ func main() {
 	}
 	dump := len(os.Args) > 4
 	keep := false
+	starts := map[uint64]bool{}
+	for _, r := range ranges {
+		starts[r[0]] = true
+	}
 	sc := bufio.NewScanner(os.Stdin)
 	sc.Buffer(make([]byte, 1<<20), 1<<24)
 	h := sha256.New()
@@ -69,6 +73,42 @@ func main() {
 	done := false
 	blocks := map[uint64]int{}
 	metas := map[uint64]int{}
+
+	// A goroutine that is asked to yield (sysmon) or whose stack must grow leaves a function from its
+	// prologue through runtime.morestack and, when it resumes, executes the prologue AGAIN from the function's
+	// first instruction.  When that happens depends on wall-clock time, not on the program.  The records of
+	// such an aborted prologue are dropped: a short segment that starts at a function entry, leaves the
+	// observed code, and is followed by a re-entry at the same function entry.
+	type rec struct {
+		kind, rest string
+	}
+	var seg []rec        // records since the last function entry, not yet committed
+	var segStart uint64  // address of that entry (0: no open segment)
+	segInstr := 0
+	segLeft := false     // the segment ended by leaving the observed code
+	commit := func() {
+		for _, r := range seg {
+			n++
+			switch r.kind {
+			case "I":
+				ni++
+			case "L":
+				nl++
+			case "S":
+				ns++
+			default:
+				nl++
+				ns++
+			}
+			h.Write([]byte(r.kind))
+			h.Write([]byte(r.rest))
+			h.Write([]byte{'\n'})
+			if dump {
+				fmt.Println(r.kind, r.rest)
+			}
+		}
+		seg, segStart, segInstr, segLeft = seg[:0], 0, 0, false
+	}
 	for sc.Scan() {
 		ln := sc.Text()
 		if len(ln) < 4 || (ln[0] != 'I' && ln[0] != ' ') {
@@ -99,22 +139,38 @@ func main() {
 			continue
 		}
 		if kind == "I" {
+			was := keep
 			keep = allowed(ranges, addr)
+			if !keep {
+				if was && segStart != 0 {
+					segLeft = true
+				}
+				continue
+			}
+			if segStart != 0 && segLeft {
+				if addr == segStart && segInstr <= 12 {
+					seg, segInstr, segLeft = seg[:0], 0, false // aborted prologue: executed again now
+				} else {
+					commit()
+				}
+			}
+			if starts[addr] {
+				if segStart != 0 {
+					commit()
+				}
+				segStart = addr
+			}
+			if segStart != 0 {
+				segInstr++
+				if segInstr > 12 {
+					seg = append(seg, rec{kind, rest})
+					commit()
+					continue
+				}
+			}
 		}
 		if !keep {
 			continue
-		}
-		n++
-		switch kind {
-		case "I":
-			ni++
-		case "L":
-			nl++
-		case "S":
-			ns++
-		default: // M = modify
-			nl++
-			ns++
 		}
 		if kind != "I" && addr >= 0xc000000000 {
 			blk := addr >> 11
@@ -125,8 +181,6 @@ func main() {
 			}
 			rest = fmt.Sprintf("h%d+%x%s", id, addr&0x7ff, rest[c:])
 		} else if kind != "I" && addr >= 0x10000000 {
-			// runtime metadata outside the binary's own segments (itabs and the like, allocated on demand):
-			// an opaque token per distinct address
 			id, ok := metas[addr]
 			if !ok {
 				id = len(metas)
@@ -134,13 +188,12 @@ func main() {
 			}
 			rest = fmt.Sprintf("m%d%s", id, rest[c:])
 		}
-		h.Write([]byte(kind))
-		h.Write([]byte(rest))
-		h.Write([]byte{'\n'})
-		if dump {
-			fmt.Println(kind, rest)
+		seg = append(seg, rec{kind, rest})
+		if segStart == 0 {
+			commit()
 		}
 	}
+	commit()
 	if !done {
 		fmt.Println("ERROR window not found")
 		os.Exit(2)
